@@ -5,6 +5,7 @@ import (
 	"go/ast"
 	"go/token"
 	"go/types"
+	"golang.org/x/tools/go/cfg"
 	"strings"
 )
 
@@ -328,7 +329,46 @@ func runC19(c *Ctx) {
 							zeroWorld = true
 							zval, zknown := atCritical(cnd, fd.Body, divisor, 3, true)
 							zeroWorld = false
+							// leaving is only wrong if it ends in an error: follow the leaving side, folding every
+							// further branch at (0, -1); a nested `if x != 0 && x == -x` may still sort it out
+							zeroErr := false
 							if !(zknown && zval != (1-si == 0)) {
+								seenB := map[*cfg.Block]bool{}
+								var walk func(bb *cfg.Block)
+								walk = func(bb *cfg.Block) {
+									if bb == nil || seenB[bb] || !bb.Live {
+										return
+									}
+									seenB[bb] = true
+									for _, nd := range bb.Nodes {
+										if rs, isRet := nd.(*ast.ReturnStmt); isRet && len(rs.Results) > 0 {
+											last := ast.Unparen(rs.Results[len(rs.Results)-1])
+											if !isNil(info, last) {
+												zeroErr = true
+											}
+											return
+										}
+									}
+									if c2 := condOf(bb); c2 != nil && len(bb.Succs) == 2 {
+										zeroWorld = true
+										v2, k2 := atCritical(c2, fd.Body, divisor, 3, true)
+										zeroWorld = false
+										if k2 {
+											if v2 {
+												walk(bb.Succs[0])
+											} else {
+												walk(bb.Succs[1])
+											}
+											return
+										}
+									}
+									for _, sc := range bb.Succs {
+										walk(sc)
+									}
+								}
+								walk(b.Succs[1-si])
+							}
+							if zeroErr {
 								spurious = append(spurious, fmt.Sprintf("%s: for the dividend 0 the branch on %s is not known to stay (x == -x also holds for 0; the guard needs x != 0 or x < 0): a spurious overflow error for 0 / -1", p.posStr(cnd.Pos()), types.ExprString(cnd)))
 							}
 							if known && val == (1-si == 0) {
